@@ -276,6 +276,7 @@ def prepare_ops(spec, dev, tmp):
             ds = None
         svc = simdev.SyncService(d, plan=plan, data_sizes=ds, cutter=cutter_fn(op.get('cuts', 'whole'), seed + cur, host_md))
         svc.explicit_sizes = op.get('explicit_sizes')
+        svc.surplus_okay = bool(op.get('surplus_okay'))
         return svc
     dev.service_for = service_for
     dev.cur_op = None
